@@ -18,7 +18,7 @@ PROPS["C03"] = dict(
         dict(name="exhaustive", run="^TestC03Exhaustive$", shards=(1, 16), timeout=(300, 1500)),
         dict(name="inmemexpired", run="^TestC03InmemExpired$", checks=(3000, 20000), shards=(1, 8), timeout=(300, 1500)),
         dict(name="bulk", run="^TestC03Bulk$", checks=(12, 120), shards=(2, 8), timeout=(300, 1500)),
-        dict(name="rapid", run="^TestC03Rapid$", checks=(2500, 15000), shards=(4, 16), timeout=(300, 1500)),
+        dict(name="rapid", run="^TestC03Rapid$", checks=(1700, 15000), shards=(6, 16), timeout=(300, 1500)),
     ],
 )
 
